@@ -269,7 +269,20 @@ func (r *run) snapshot() ([]tr.Ev, string) {
 		}
 		for _, e := range es {
 			p := append(append([]string{}, prefix...), e.Name)
-			out = append(out, r.view(p, e))
+			v := r.view(p, e)
+			// the same name through the other read path (LookupDirectoryEntry -> FindEntry)
+			le, lst := r.lookup(p)
+			if lst == "timeout" {
+				return lst
+			}
+			if le != nil {
+				lv := r.view(p, le)
+				delete(lv, "p")
+				v["lk"] = lv
+			} else {
+				v["lk"] = noEntry
+			}
+			out = append(out, v)
 			if e.IsDirectory {
 				if st := walk(p, depth+1); st != "ok" {
 					return st
